@@ -235,6 +235,21 @@ def getRoots (r : Rsp (List (Option Bytes))) : Res (List Bytes) :=
   | .err => .err
   | .panic => .panic
 
+/-- TemporalLogClient.GetAcceptedRoots over the shards' responses (`none`: the transport gave no response): the union of
+the shards' roots when every shard succeeds, otherwise an error and **no** roots (which shard's error is reported depends
+on which goroutine finishes first; the model only says that it is an error) -/
+def shardOk (s : Option (Rsp (List (Option Bytes)))) : Bool :=
+  match s with
+  | some r => (getRoots r).isOk
+  | none => false
+
+def temporalRoots (shards : List (Option (Rsp (List (Option Bytes))))) : Option (List Bytes) :=
+  if shards.all shardOk then
+    some (shards.flatMap fun s => match s with
+      | some r => (match getRoots r with | .ok cs => cs | _ => [])
+      | none => [])
+  else none
+
 /-! ### the entry decoder -/
 
 inductive LeafEntry
